@@ -174,7 +174,7 @@ func (l *List[T]) UnmarshalJSON(in []byte) error {
 }
 
 func (e *Element[T]) appendable(new *Element[T]) bool {
-	return new != nil && new.ok && e.list != nil // && new.list == nil && new.list != e.list //&& new.next == nil && new.prev == nil
+	return new != nil && new.ok && e.list != nil && new.list == nil // && new.list != e.list //&& new.next == nil && new.prev == nil
 }
 
 // Append adds the element 'new' after the element 'e', inserting it
